@@ -250,6 +250,11 @@ TEMPLATES = [
     # (20..) with pre-parsed definitions passed as ast_names: top-level assignments still land in the host's mapping
     "y = a\nz = k2 + y\nz",
     "y = a\ny += k2\ny",
+    # (22..) a nested eval (own names mapping) fails inside a host callback: the outer program's lambdas go on resolving in the outer mapping
+    "f = x => x + kk\nr1 = f(1)\nh2(0)\n[r1, f(1)]",
+    # (23..) a lambda made inside a lambda call and called after that call returned sees the bindings of ITS call time, not the finished call's
+    "add = a => (b => [a, b])\ninc = add(1)\ninc(10)[zero]",
+    "mk = pv => (v => pv)\ng = mk(5)\ng(0)",
 ]
 if isinstance(hlib.PARAM, dict) and "t" in hlib.PARAM:
     prewarm(TEMPLATES[hlib.PARAM["t"]])
@@ -283,6 +288,17 @@ def api_scope(hb: bool, hv: int, pv: int, a: int, n: int) -> None:
         names['len'] = host_len
     if t == 15:
         names['max'] = 10
+    if t == 22:
+        from sqv.api import PARSER as _P2
+
+        def h2(_x):
+            try:
+                _P2.eval("nosuch + kk", {'kk': 1000})
+            except Exception:
+                pass
+            return None
+        names['h2'] = h2
+        names['kk'] = 1
     fn_before = dict(FUNCTIONS)
     if t >= 20:
         from sqv.api import CACHED as _C
@@ -322,6 +338,12 @@ def api_scope(hb: bool, hv: int, pv: int, a: int, n: int) -> None:
         assert out[0] == 'ok' and out[1] == pv, "a parameter of an outer call in progress must shadow the host/top-level binding for callees (dynamic scoping)"
     elif t in (15, 16, 17, 18, 19):
         assert out[0] == 'err', "a non-callable inner binding did not shadow the outer function in call position (the call returned %r)" % (out[1],)
+    elif t == 22:
+        assert out[0] == 'ok' and out[1] == [2, 2], "after a nested eval failed inside a host callback, the outer program's lambda resolves its free names elsewhere: %r" % (out[1],)
+    elif t == 23:
+        assert out[0] == 'ok' and out[1] == a, "a lambda called after the call that created it returned still sees that call's parameter (expected the host's a)"
+    elif t == 24:
+        assert out[0] == 'ok' and out[1] == pv, "a lambda called after the call that created it returned still sees that call's parameter (expected the host's pv)"
     elif t == 20:
         assert out[0] == 'ok' and out[1] == a + pv and names.get('y') == a and names.get('z') == a + pv, "with ast_names, top-level assignments were not written to the host's mapping"
     elif t == 21:
